@@ -289,7 +289,7 @@ theorem lmCondInit_ok {n m d c : Nat} {cov : Cov ℝ} {x : Mat ℝ n d} {xu : Ma
             (scaleRows (residual y mu) (cellScale v jitter))
             (.ok (addEye (matMulT (scaleCols (solveLowerM L (gram cov xu x)) (cellScale v jitter))
                                   (scaleCols (solveLowerM L (gram cov xu x)) (cellScale v jitter)))))
-            (.scalar 1) Option.none withUnc = .ok s)) := by
+            (.vec (cellNoise v jitter)) Option.none withUnc = .ok s)) := by
   unfold lmCondInit at h
   split at h
   · cases h
